@@ -32,6 +32,8 @@ MIN_SQRT, MAX_SQRT = 4295128739, 14614467034852101032872730522039888223787239703
 @lru_cache(maxsize=None)
 def sqrt_pow_enclosure(t: int, bits: int = 230):
     """(lo, hi) rationals with lo <= 1.0001^(t/2) < hi, hi - lo = 2^-bits (exact integer arithmetic)"""
+    if t == 0:
+        return F(1), F(1)  # exact: there is nothing to round at tick 0
     n = abs(t)
     N, Dn = 10001**n, 10000**n
     if t < 0:
@@ -109,7 +111,14 @@ def tickmath(ctx):
     lemma("step masks are 2,4,...,2^19 once each (every bit of |tick| is consumed)", masks == [1 << k for k in range(1, 20)] and ex["seed"][0] == 1, tuple(1 << k for k in range(20)))
     lemma("seed for even |tick| is exactly 2^128", ex["seed"][2] == Q128, (0,))
     lemma("inversion uses 2^256 - 1", ex["inv_const"] == (1 << 256) - 1, (0x55555,))
-    lemma("final conversion is a right shift by 32, rounding up", ex["final_shift"] == 32 and ex["round_up"], (0, 1))
+    if ex["final_shift"] is not None:
+        lemma("final conversion is a right shift by 32, rounding up", ex["final_shift"] == 32 and ex["round_up"], (0, 1))
+    else:
+        # an unrecognised final expression: translated operator by operator and compared with ceil(ratio / 2^32) by the solver
+        rr = z3.Int("ratio_f")
+        res_f = ast2smt.final_z3(ex, rr)
+        two32i = z3.IntVal(1 << 32)
+        lemma("final conversion is a right shift by 32, rounding up", symx.SymBool(z3.Implies(z3.And(rr > 0, rr <= z3.IntVal(1 << 161)), z3.And(res_f * two32i >= rr, (res_f - 1) * two32i < rr))), (0, 1))
     # --- constants: |C_k - 2^128 * 1.0001^(-2^k/2)| <= 1/2 (exact integer arithmetic on the enclosure)
     consts = [(1, ex["seed"][1], 128)] + list(ex["steps"])
     for m, c, s in consts:
